@@ -116,6 +116,7 @@ def c10(repo, report, tier):
         report.saw(function="cli.make_pipeline_from_args", file="src/cutadapt/cli.py", paths=sum(len(b.rows) for b in m.blocks))
         _c10_r1(repo, report, m, dests)
         _c10_r2(repo, report, m)
+        _c10_numeric_presence(repo, report, m, dests)
     _c10_r4(repo, report, opts)
 
 
@@ -299,6 +300,29 @@ def _split_args(key: str):
     return out
 
 
+def _c10_numeric_presence(repo, report, m, dests):
+    """An option whose value 0 is legal (type int/float, default None) must be tested with 'is None', never by truthiness."""
+    mode = "paired" if m.paired else "single"
+    numeric = {d for d, os_ in dests.items() if any(o.type in ("int", "float") and o.default is None and o.action == "store" for o in os_)}
+    used = {}
+    mod_blocks = {bi for bi, ri, pos, val, s in m.slots("modifiers")}
+    step_blocks = {bi for bi, ri, pos, val, s in m.slots("steps")}
+    for bi, b in enumerate(m.blocks):
+        if bi not in mod_blocks and bi not in step_blocks:
+            continue
+        for val, slots, ex, row in b.rows:
+            for k in val:
+                if k.startswith("truthy:args."):
+                    d = k[len("truthy:args."):]
+                    if d in numeric:
+                        used.setdefault(d, set()).add(getattr(b.stmt, "lineno", 0))
+    for d in sorted(numeric & (set(MOD_STAGE) | set(STEP_STAGE))):
+        bad = sorted(used.get(d, []))
+        report.ob("C10.R2", f"{mode}: presence of --{d.replace('_', '-')} tested with 'is None'", not bad, facts={"truthiness_tests_in_builder_statements_at": bad},
+                  expected="'x is None' / 'x is not None' (the value 0 is a legal setting)", loc="src/cutadapt/cli.py", fact_key=d,
+                  why="" if not bad else f"the builder tests args.{d} for truthiness: an explicit 0 is treated as if the option were absent")
+
+
 def _c10_r4(repo, report, opts):
     appends = sorted({o.dest for o in opts if o.action == "append"})
     report.ob("C10.R4", "append-type options", appends == ["adapters", "adapters2", "cut", "cut2", "strip_suffix"], facts={"append_dests": appends},
@@ -438,6 +462,12 @@ def c11_builder(repo, report, tier):
                     problems.append(f"{d} redirects reads of a {e['preds']} filter")
                 if d in ("untrimmed_output", "untrimmed_paired_output") and "IsUntrimmed" not in e["preds"]:
                     problems.append(f"{d} redirects reads of a {e['preds']} filter")
+            # every redirect path that was given must reach the writer
+            for d in ("too_short_output", "too_short_paired_output", "too_long_output", "too_long_paired_output", "untrimmed_output", "untrimmed_paired_output"):
+                given = e["val"].get(f"truthy:args.{d}") is True or e["val"].get(f"isnone:args.{d}") is False
+                same_filter = (d.startswith("too_short") and "TooShort" in e["preds"]) or (d.startswith("too_long") and "TooLong" in e["preds"]) or (d.startswith("untrimmed") and "IsUntrimmed" in e["preds"])
+                if given and same_filter and paired and f"args.{d}" not in s.key and "open_record_writer" in s.key:
+                    problems.append(f"--{d.replace('_', '-')} was given but the writer of this filter does not receive it")
             # writer argument order (path1, path2)
             w = re.search(r"open_record_writer\(([^)]*)\)", s.key)
             if w:
